@@ -69,7 +69,7 @@ SEMANTIC_RULES = {
     "C13": {"UNIQ", "LCA", "SIZED", "CONST", "XMODEL", "CONSTREJ", "DET"},
     "C14": {"R5"},
     "C16": {"CLONE", "R6", "R7", "R8"},
-    "C17": {"R1", "R5", "R6"},
+    "C17": {"R1", "R2", "R5", "R6"},
     "C18": {"R1", "R2", "R3", "R4", "R5"},
     "C19": {"R1", "R2", "R3", "R3b", "R4", "R8", "R9", "R10", "A12"},
 }
